@@ -402,8 +402,17 @@ func (r *c10Run) thirdParty() {
 		}
 		for _, tc := range []struct {
 			allow, move int64
-		}{{0, 10}, {50, 51}, {50, 50}, {80, 30}} {
+			revoked     int64 // an approval granted earlier and taken back (approve 0) before the one above
+		}{{0, 10, 0}, {50, 51, 0}, {50, 50, 0}, {80, 30, 0}, {0, 10, 40}} {
 			ctx := c.Branch()
+			if tc.revoked > 0 {
+				c.EthTxOn(ctx, e.Victim, &st, fix.StakingPack("approveShares", v0.String(), e.Caller.Hex(), chain.FX(tc.revoked).BigInt()), nil, 0)
+				if er := c.EthTxOn(ctx, e.Victim, &st, fix.StakingPack("approveShares", v0.String(), e.Caller.Hex(), big.NewInt(0)), nil, 0); er.Failed() {
+					r.res.Inconclusive = "revoke: " + er.VmError()
+					return
+				}
+				r.res.Count("revoked_allowance_cases", 1)
+			}
 			if tc.allow > 0 {
 				if er := c.EthTxOn(ctx, e.Victim, &st, fix.StakingPack("approveShares", v0.String(), e.Caller.Hex(), chain.FX(tc.allow).BigInt()), nil, 0); er.Failed() {
 					r.res.Inconclusive = "approve: " + er.VmError()
